@@ -549,10 +549,29 @@ type Alphabet struct {
 	GhostProbe bool    `json:"ops_on_never_issued_id"`
 }
 
+// latticeDurs is the alphabet's durations plus every duration a live lock of the ledger has (the "spread"
+// seed uses 13 distinct durations so that lockup's accumulation sum-tree, fan-out 10, has split).
+func latticeDurs(l *Ledger) []time.Duration {
+	set := map[time.Duration]struct{}{}
+	for _, d := range Durations {
+		set[d] = struct{}{}
+	}
+	for _, x := range l.Locks {
+		set[x.Dur] = struct{}{}
+	}
+	out := make([]time.Duration, 0, len(set))
+	for d := range set {
+		out = append(out, d)
+	}
+	sort.Slice(out, func(i, j int) bool { return out[i] < out[j] })
+	return out
+}
+
 func nextLonger(d time.Duration, steps int) time.Duration {
+	// the steps-th alphabet duration strictly longer than d (the longest one if there are fewer)
 	for i, x := range Durations {
-		if x == d {
-			j := i + steps
+		if x > d {
+			j := i + steps - 1
 			if j >= len(Durations) {
 				j = len(Durations) - 1
 			}
